@@ -66,6 +66,11 @@ func checkLeak(c packcase.Case) error {
 		}
 		if l.Climbs && !l.Outside {
 			hasClimb = true
+			// in the tree on disk, but not when read at its position in the archive:
+			// it cannot be stored as a link, so without dereferencing Pack has to refuse it
+			if !l.Allowed && !c.Opts.Deref && !maybeUnvisited(l.Path) && !ev.IsKnown("c05-link-reenters-root-by-name") {
+				mustFail = l.Path
+			}
 		}
 		if !l.Outside {
 			continue
@@ -104,7 +109,7 @@ func checkLeak(c packcase.Case) error {
 		ev.Label("pack-error")
 		if run.Illegal {
 			ev.Label("pack-illegal-slug-error")
-			if !hasOut {
+			if !hasOut && !hasClimb {
 				return fmt.Errorf("Pack failed with an illegal-slug error although no link leaves the tree: %v", run.Err)
 			}
 		}
